@@ -260,6 +260,7 @@ WITNESS = {
     r'datalog::World::run_with_limits::loop0\.index': 'tools/replay.sh iterations_zero_budget',
     r'datalog::World::run_with_limits::loop0\.ok_facts_initial': 'tools/replay.sh facts_over_budget_at_start',
     r'Authorizer::authorize::arith': 'tools/replay.sh snapshot_iteration_underflow',
+    r'World::run_with_limits::arith\[self.iterations': 'tools/replay.sh snapshot_iteration_overflow',
     r'biscuit-capi::lib::public_key_serialize::call-pre': 'tools/replay.sh capi_public_key_serialize_secp256r1',
     r'biscuit-capi::lib::biscuit_(serialize_sealed|sealed_size)::': 'tools/replay.sh capi_serialize_sealed',
     r'datalog::contains_v3_3_(term|op)::': 'tools/replay.sh schema_version_features',
